@@ -136,8 +136,8 @@ def run(rep, prog, tier):
     rep.ob('R-PURE', 'll_per_bin arguments', not muts, 'no store into model/data (%d subscript/attribute stores)' % len(muts), m.rel, lp.lineno, what='arguments are not modified')
     # ---- sums and wrappers -------------------------------------------------------------------------------------------
     simple = {
-        'll': ['ll_arr = ll_per_bin(model, data)', 'return ll_arr.sum()'],
-        'll_multinom': ['ll_arr = ll_multinom_per_bin(model, data)', 'return ll_arr.sum()'],
+        'll': ['ll_arr = ll_per_bin(model, data)', 'return numpy.sum(ll_arr)'],
+        'll_multinom': ['ll_arr = ll_multinom_per_bin(model, data)', 'return numpy.sum(ll_arr)'],
         'll_multinom_per_bin': ['theta_opt = optimal_sfs_scaling(model, data)', 'return ll_per_bin(theta_opt * model, data)'],
         'minus_ll': ['return -ll(model, data)'],
         'minus_ll_multinom': ['return -ll_multinom(model, data)'],
@@ -156,7 +156,7 @@ def run(rep, prog, tier):
     if len(im) == 1 and len(ret) == 1 and isinstance(im[0].targets[0], ast.Tuple) and len(im[0].targets[0].elts) == 2:
         a, b = [ast.unparse(e) for e in im[0].targets[0].elts]
         args = [ast.unparse(x) for x in im[0].value.args]
-        ok = args == ['model', 'data'] and ast.unparse(ret[0].value) == '%s.sum() / %s.sum()' % (b, a) and os_.body.index(im[0]) < os_.body.index(ret[0])
+        ok = args == ['model', 'data'] and ast.unparse(ret[0].value) == 'numpy.sum(%s) / numpy.sum(%s)' % (b, a) and os_.body.index(im[0]) < os_.body.index(ret[0])
         det = '%s, %s = intersect_masks(%s); return %s' % (a, b, ', '.join(args), ast.unparse(ret[0].value))
     rep.ob('R-FLOW', 'optimal_sfs_scaling', ok, det, m.rel, ret[0].lineno if ret else os_.lineno, what='sum(data)/sum(model) over the two arrays returned by intersect_masks')
     ism = prog.func(NUM, 'intersect_masks')
